@@ -89,12 +89,22 @@ type RaceReport struct {
 	Sig    string
 	A, B   string
 	Points int // number of choice points when first seen
+	// SiteA, SiteB: the two access sites without the access kind
+	SiteA, SiteB string
 }
 
 func (s *Sched) access(p unsafe.Pointer, write, atomic bool, site string) {
 	t := s.cur
 	if t == nil || t.aborted || s.finishing {
 		return
+	}
+	if s.yieldSites != nil && s.yieldSites[site] && !s.Frozen && t != s.main {
+		// race-directed preemption point: this access was seen racing, so the interleavings
+		// around it are behaviours of the program too
+		s.yield(t, nil, "racy access "+site)
+		if t.aborted || s.finishing {
+			return
+		}
 	}
 	sh := s.shadow[p]
 	if sh == nil {
@@ -143,7 +153,7 @@ func (s *Sched) reportRace(a accessRec, aw bool, b accessRec, bw bool) {
 	sort.Strings(pair)
 	sig := pair[0] + " || " + pair[1]
 	if _, ok := s.Races[sig]; !ok {
-		s.Races[sig] = &RaceReport{Sig: sig, A: pair[0], B: pair[1], Points: len(s.Points)}
+		s.Races[sig] = &RaceReport{Sig: sig, A: pair[0], B: pair[1], Points: len(s.Points), SiteA: a.site, SiteB: b.site}
 		s.ev(s.cur, "RACE "+sig)
 	}
 }
@@ -197,4 +207,18 @@ func MW[M ~map[K]V, K comparable, V any](m M, site string) M {
 		s.access(mapPtr(m), true, false, site)
 	}
 	return m
+}
+
+// AppendW records the element writes of an append of n elements to s and
+// returns s: appending within the capacity writes into the backing array that
+// other slice headers (an earlier snapshot handed to another thread) may still
+// read.
+func AppendW[T ~[]E, E any](s T, n int, site string) T {
+	if sc := S; sc != nil && sc.raceOn && n > 0 && cap(s)-len(s) >= n {
+		full := s[: len(s)+n : cap(s)]
+		for i := len(s); i < len(full); i++ {
+			sc.access(unsafe.Pointer(&full[i]), true, false, site)
+		}
+	}
+	return s
 }
